@@ -845,6 +845,34 @@ impl Runner {
             ["lay"] => {}
             ["crash"] => self.crash(),
             ["fsop", rest @ ..] => self.fsop(rest),
+            ["name", n] => {
+                let Ok(n) = n.parse::<u64>() else { return self.emit("bad-op") };
+                let c = Config::new("D");
+                let p = c.chunk_path(raft_log::ChunkId(n));
+                self.emit(&format!("name {}", p.strip_prefix("D/").unwrap_or(&p)));
+            }
+            ["pname", nm] => {
+                // `parse_chunk_file_name` is crate-private: create a file of that
+                // name in an empty directory and list it with `load_chunk_ids`
+                let d = {
+                    let _b = BypassGuard::new();
+                    let d = format!("{}/names", self.base);
+                    let _ = std::fs::remove_dir_all(&d);
+                    std::fs::create_dir_all(&d).unwrap();
+                    let _ = std::fs::write(format!("{}/{}", d, nm), b"");
+                    d
+                };
+                let c = Config::new(&d);
+                let r = catch_unwind(AssertUnwindSafe(|| RaftLog::<VT>::load_chunk_ids(&c)));
+                match r {
+                    Ok(Ok(ids)) if ids.len() == 1 => self.emit(&format!("pname ok {}", ids[0].0)),
+                    Ok(Ok(_)) => self.emit("pname err"),
+                    Ok(Err(_)) => self.emit("pname ioerr"),
+                    Err(_) => self.emit("pname panic"),
+                }
+                let _b = BypassGuard::new();
+                let _ = std::fs::remove_dir_all(&d);
+            }
             ["enc", rec @ ..] => match parse_record(rec) {
                 Some(r) => {
                     let mut bs = vec![];
